@@ -142,6 +142,17 @@ EndViol(o, en) ==
                              /\ Actor(o, g[1], g[2]).outs = << >>
                              /\ Last(Actor(o, g[1], g[2]).cancl) # "ok" } }
   \cup
+  \* the MPC task has delivered its notification (result or MPC error): the policy has ended by success or MPC error;
+  \* once nothing can move any more the state machine must have stopped, and (single computation) its leader's
+  \* permit must be back
+  { V("C17", "the policy ended by " \o (IF Last(x.outs).val = "ok" THEN "success" ELSE "an MPC error")
+             \o " (notification delivered) and nothing can move, but "
+             \o (IF x.kind # "Stopped" THEN "the state machine has not stopped (state " \o x.kind \o ")"
+                 ELSE "the permit is still taken"), x.c, x.p) :
+      x \in { y \in AllActors(o) : /\ o.parked = << >> /\ y.outs # << >> /\ Last(y.outs).val \in {"ok", "mpcerr"}
+                                   /\ \/ y.kind # "Stopped"
+                                      \/ NC = 1 /\ IsLeader(y.c, y.p) /\ o.sem[y.p + 1] # cur.scen.conc[y.p + 1] } }
+  \cup
   { V("C17", "caller's permit not returned after a failed call to a peer", f[1], f[2]) :
       f \in { g \in failed : /\ \A c \in Comps : IsLeader(c, g[2]) => Actor(o, c, g[2]).kind = "Stopped"
                              /\ o.sem[g[2] + 1] # cur.scen.conc[g[2] + 1] } }
